@@ -173,7 +173,13 @@ impl CaseExec for Exec {
                             Ok(r) => format!("{}", r.sum(MetricEvent::Pass)),
                             Err(_) => "err".to_string(),
                         };
-                        format!("sum={} full={} maxavg={}", d, full, f64_exact(node.max_avg(MetricEvent::Pass)))
+                        format!(
+                            "sum={} full={} maxavg={} qp={}",
+                            d,
+                            full,
+                            f64_exact(node.max_avg(MetricEvent::Pass)),
+                            f64_exact(node.qps_previous(MetricEvent::Pass))
+                        )
                     }
                 })
             }
